@@ -156,12 +156,14 @@ fn resolve<S: HasComponent<Component>>(
         token::Value::CommandRef(command_ref) => command_ref,
         _ => unreachable!(),
     };
-    let (array_index, array_len) = *input
-        .state()
-        .component()
-        .array_refs
-        .get(&command_ref)
-        .unwrap();
+    let Some(&(array_index, array_len)) = input.state().component().array_refs.get(&command_ref)
+    else {
+        // The array is looked up by the name it was allocated under; a \let alias has another name.
+        return Err(input.fatal_error(error::SimpleTokenError::new(
+            token,
+            "this control sequence is an alias of an array created with \\newIntArray; arrays cannot be aliased using \\let",
+        )));
+    };
     let inner_index = parse::Uint::<{ parse::Uint::MAX }>::parse(input)?.0;
     if inner_index >= array_len {
         return Err(input.fatal_error(error::SimpleTokenError::new(
